@@ -1,19 +1,52 @@
 package optimizer
 
 import (
+	"reflect"
+
 	. "github.com/antonmedv/expr/ast"
 )
 
-type inRange struct{}
+// rangeKind reports whether comparing a value of this kind with an int literal
+// happens at kind int (or exactly, for int64), so that `x >= a and x <= b` means `x in a..b`.
+func rangeKind(t reflect.Type) bool {
+	if t == nil {
+		return false
+	}
+	switch t.Kind() {
+	case reflect.Int, reflect.Int64, reflect.Uint, reflect.Uint8, reflect.Uint16, reflect.Uint32, reflect.Uint64:
+		return true
+	}
+	return false
+}
+
+// simpleNode reports whether evaluating the node twice is unobservable (no calls, no allocation).
+func simpleNode(node Node) bool {
+	switch n := node.(type) {
+	case *IdentifierNode, *PointerNode, *IntegerNode:
+		return true
+	case *PropertyNode:
+		return simpleNode(n.Node)
+	}
+	return false
+}
+
+type inRange struct {
+	// typed is set when the tree has been type checked (a config was given):
+	// then the rewrite asks for an integer type on the left operand.
+	typed bool
+}
 
 func (*inRange) Enter(*Node) {}
-func (*inRange) Exit(node *Node) {
+func (v *inRange) Exit(node *Node) {
 	switch n := (*node).(type) {
 	case *BinaryNode:
 		if n.Operator == "in" || n.Operator == "not in" {
 			if rng, ok := n.Right.(*BinaryNode); ok && rng.Operator == ".." {
 				if from, ok := rng.Left.(*IntegerNode); ok {
 					if to, ok := rng.Right.(*IntegerNode); ok {
+						if (v.typed && !rangeKind(n.Left.Type())) || !simpleNode(n.Left) {
+							return
+						}
 						Patch(node, &BinaryNode{
 							Operator: "and",
 							Left: &BinaryNode{
